@@ -258,6 +258,14 @@ func GoSchemaFamily() []*EquivCase {
 			s.Properties = map[string]*jsonschema.Schema{"a": intS.CloneSchemas(), "b": str.CloneSchemas()}
 			s.PropertyOrder = []string{"b", "a"}
 		}},
+		{"PropertiesOddNames", func(s *jsonschema.Schema) {
+			// names that need JSON escaping (control characters, DEL, quote, backslash, non-BMP)
+			s.Properties = map[string]*jsonschema.Schema{"soh\x01": intS.CloneSchemas(), "del\x7f": str.CloneSchemas(), "q\"\\": {Not: &jsonschema.Schema{}}, "tag\U000e0001": intS.CloneSchemas(), "\u2028": str.CloneSchemas()}
+			s.PatternProperties = map[string]*jsonschema.Schema{"^\x02": str.CloneSchemas()}
+			s.Defs = map[string]*jsonschema.Schema{"bel\x07": intS.CloneSchemas()}
+			s.DependentRequired = map[string][]string{"soh\x01": {"del\x7f"}}
+			s.Required = []string{"esc\x1b"}
+		}},
 		{"PropertiesOrderStale", func(s *jsonschema.Schema) {
 			// as long as the map, but names a property that does not exist: b is unlisted
 			s.Properties = map[string]*jsonschema.Schema{"a": intS.CloneSchemas(), "b": {Not: &jsonschema.Schema{}}}
